@@ -148,10 +148,13 @@ func makeLexeme(kind int, last bool) lexeme {
 	case lxComment:
 		if kind == tkExpression {
 			txt := []rune{'/', '*'}
-			n := vChoice("cm.n", 3)
+			n := vChoice("cm.n", 4)
 			for i := 0; i < n; i++ {
 				r := vRune("cm")
-				vAssume(vAnd(r != '*', r != '/'))
+				// any body (stars and slashes included) that does not contain the closing "*/"
+				if i > 0 {
+					vAssume(!vAnd(txt[len(txt)-1] == '*', r == '/'))
+				}
 				txt = append(txt, r)
 			}
 			return lexeme{class, append(txt, '*', '/'), tokenizers.Comment}
